@@ -619,6 +619,18 @@ func genAdds(r *simkit.RNG, sc *Scenario, k *gknobs) {
 			sc.Adds = append(sc.Adds, Add{Kind: "remote", Addr: p.Source(pickLoc(r, &p)), Finder: f})
 		}
 	}
+	if pr := simkit.NewRNG(sc.Seed, "bw/root-then-sub"); len(sc.Regs) > 0 && pr.Chance(1, 4) {
+		// one registry package version asked for at its root through the constraint entry point
+		// and at a sub-path through the final-address entry point, same finder
+		rp := simkit.Pick(pr, sc.Regs)
+		v := simkit.Pick(pr, rp.Versions).V
+		sub := simkit.Pick(pr, []string{"m1", "m2", "m1/sub"})
+		pair := []Add{{Kind: "registry", Addr: rp.Addr, Constr: v, Finder: "F1"}, {Kind: "final", Addr: rp.Addr + "@" + v + "//" + sub, Finder: "F1"}}
+		if pr.Chance(1, 2) {
+			pair[0], pair[1] = pair[1], pair[0]
+		}
+		sc.Adds = append(sc.Adds, pair...)
+	}
 }
 
 func splitSub(a string) (string, string) {
